@@ -191,3 +191,21 @@ pub fn crypto_stream<S: Src>(s: &mut S) {
         }
     }
 }
+
+/// C03 + C05 through the real containers WITH schema (plain and bzip2-compressed): a file saved by the version-i
+/// definition loads in the version-j definition (the schema gate compares at the FILE's version, the payload is read
+/// at the file's version) and yields the value the evolution rules prescribe.
+pub fn evolve_container<Old: crate::family::Fam, New: crate::family::Fam + crate::family::Evolve<Old>, S: Src>(s: &mut S) {
+    let old = Old::sym(s);
+    let compressed = s.bool();
+    let mut file: Vec<u8> = Vec::new();
+    let r = if compressed { savefile::save_compressed(&mut file, Old::VERSION, &old) } else { savefile::save(&mut file, Old::VERSION, &old) };
+    assert!(r.is_ok(), "saving at the old definition's version succeeds");
+    match savefile::load::<New>(&mut &file[..], New::VERSION) {
+        Ok(n) => {
+            let exp = New::expect_from(&old);
+            assert!(crate::family::same(&n, &exp, New::VERSION), "C03: retained fields equal, removed fields skipped, added fields default, converted fields converted ({} container, {} -> {})", if compressed { "compressed" } else { "plain" }, Old::NAME, New::NAME);
+        }
+        Err(e) => panic!("C03/C05: data saved at an earlier version must load in the later definition ({} container, {} -> {}): {:?}", if compressed { "compressed" } else { "plain" }, Old::NAME, New::NAME, e),
+    }
+}
